@@ -858,6 +858,22 @@ impl BigDecimal {
 
         let target_precision = DEFAULT_PRECISION;
 
+        if self.is_negative() {
+            // e^x = 1 / e^|x| : summing the series with a negative argument
+            // cancels catastrophically (the result could even be negative)
+            let working_precision = stdlib::num::NonZeroU64::new(target_precision + 5).unwrap();
+            let ctx = Context::new(working_precision, RoundingMode::HalfEven);
+            let exp_abs = self.abs().exp_with_guard_digits();
+            return exp_abs.inverse_with_context(&ctx).with_prec(target_precision);
+        }
+
+        self.exp_with_guard_digits().with_prec(target_precision)
+    }
+
+    /// e<sup>x</sup> for x > 0, carrying five digits more than the default precision
+    fn exp_with_guard_digits(&self) -> BigDecimal {
+        let target_precision = DEFAULT_PRECISION;
+
         let precision = self.digits();
 
         let mut term = self.clone();
@@ -873,7 +889,7 @@ impl BigDecimal {
 
             let trimmed_result = result.with_prec(target_precision + 5);
             if prev_result == trimmed_result {
-                return trimmed_result.with_prec(target_precision);
+                return trimmed_result;
             }
             prev_result = trimmed_result;
         }
